@@ -161,6 +161,56 @@ Theorem C08_wal_snapshot_every_prefix_loads : forall w n,
   wal_load (wal_run w (firstn n (wal_snapshot_trace w))) = wal_load w.
 Proof. exact wal_snapshot_every_prefix_loads. Qed.
 
+(** The same without side condition, for the cut (crash) and for one failing write: the snapshot is stored
+    before the change sets are removed (wal.rs:399-414), so at EVERY cut point the stored state loads the
+    revision that was acknowledged - nothing acknowledged is lost. *)
+Theorem C08_wal_snapshot_recovers_at_every_cut : forall w n,
+  wal_load (wal_run w (firstn n (wal_snapshot_trace w))) = wal_load w.
+Proof. exact wal_snapshot_recovers_at_every_cut. Qed.
+
+Theorem C08_wal_snapshot_failed_write_recovers : forall w n,
+  wal_load (wal_fail_at n (wal_snapshot_trace w) w) = wal_load w.
+Proof. exact wal_snapshot_failed_write_recovers. Qed.
+
+Theorem C08_wal_snapshot_keeps_acknowledged : forall w n,
+  wal_keeps_acknowledged w (wal_run w (firstn n (wal_snapshot_trace w))) /\
+  wal_keeps_acknowledged w (wal_fail_at n (wal_snapshot_trace w) w).
+Proof. exact wal_snapshot_keeps_acknowledged. Qed.
+
+(** The swapped order (change sets removed first, snapshot stored last) is refuted: a cut after the first
+    removal loses acknowledged change sets; a failing write of the snapshot falls back to the old snapshot,
+    which loses every change set acknowledged since then. *)
+Theorem C08_wal_snapshot_swapped_refuted : ~ wal_snapshot_swapped_recovers.
+Proof. exact wal_snapshot_swapped_refuted. Qed.
+
+Theorem C08_wal_swapped_failed_snapshot_write_falls_back : forall w,
+  wal_load (wal_fail_at (length (w_sets w)) (wal_snapshot_trace_swapped w) w) = w_snap w.
+Proof. exact wal_swapped_failed_snapshot_write_falls_back. Qed.
+
+Theorem C08_wal_swapped_loses_acknowledged : forall w, In (w_snap w) (w_sets w) ->
+  ~ wal_keeps_acknowledged w (wal_fail_at (length (w_sets w)) (wal_snapshot_trace_swapped w) w).
+Proof. exact wal_swapped_loses_acknowledged. Qed.
+
+(** The record of a rejected command: one failing write of it leaves log and memory untouched (the store error
+    ends the call before the cache update). Written best effort instead (regression witness), memory runs
+    ahead of the log and the next accepted command can only be written behind a gap. *)
+Theorem C08_rejected_record_failed_write_invisible :
+  forall (S Ev : Type) (init : S) (apply : S -> Ev -> S) (Ob : Type) (listen : Ob -> list Ev -> option Ob) (pre post : list Ev -> list task)
+    (s : sys S Ev Ob),
+  fail_at S Ev Ob 0 (steps_of S Ev init apply Ob listen pre post s ORejected) s = Some s.
+Proof. exact rejected_record_failed_write_invisible. Qed.
+
+Theorem C08_rejected_record_best_effort_refuted :
+  let s0 := mkSys unit unit unit (empty_store unit unit) tt [] [] in
+  let cmd := complete unit unit tt (fun s _ => s) unit (fun _ _ => Some tt) (fun _ => []) (fun _ => []) (OCommand [tt]) in
+  exists s1,
+    fail_at unit unit unit 0 (steps_rejected_best_effort unit unit tt (fun s _ => s) unit s0) s0 = Some s1 /\
+    cmds unit unit (s_log _ _ _ s1) = [] /\
+    cache unit unit (s_log _ _ _ s1) = Some (mkAgg unit 2 tt) /\
+    cmd s1 = None /\
+    (exists s2, cmd (crash unit unit unit s1) = Some s2 /\ cmds unit unit (s_log _ _ _ s2) = [SEvents [tt]]).
+Proof. exact rejected_record_best_effort_refuted. Qed.
+
 (** rsync tree switch. *)
 Theorem C08_rsync_current_at_every_cut : forall c0 c1 n r',
   rsync_run (rs_clean (Some c0)) (firstn n (rsync_write_trace (rs_clean (Some c0)) c1)) = Some r' ->
@@ -225,6 +275,14 @@ Print Assumptions C08_atomic_alike_refuted.
 Print Assumptions C08_keyroll_activation_not_resubmittable.
 Print Assumptions C08_failed_queue_store_loses_task.
 Print Assumptions C08_wal_snapshot_every_prefix_loads.
+Print Assumptions C08_wal_snapshot_recovers_at_every_cut.
+Print Assumptions C08_wal_snapshot_failed_write_recovers.
+Print Assumptions C08_wal_snapshot_keeps_acknowledged.
+Print Assumptions C08_wal_snapshot_swapped_refuted.
+Print Assumptions C08_wal_swapped_failed_snapshot_write_falls_back.
+Print Assumptions C08_wal_swapped_loses_acknowledged.
+Print Assumptions C08_rejected_record_failed_write_invisible.
+Print Assumptions C08_rejected_record_best_effort_refuted.
 Print Assumptions C08_rsync_current_at_every_cut.
 Print Assumptions C08_rsync_between_renames_heals.
 Print Assumptions C08_rsync_next_write_succeeds_after_any_cut.
